@@ -398,6 +398,9 @@ func checkKeyAgreement(c *Ctx, p *Prog, R *BusRoles, rule string) {
 				} else {
 					c.Violate(rule, construct, pos, "whole-map replacement on a shard array element outside a loop that provably covers every shard: "+why, nil)
 				}
+			} else if a.Kind == "range" {
+				// iterating over everything one shard holds concerns no particular key
+				c.Discharge(rule, construct, pos, "read-only iteration over a shard picked by array index")
 			} else {
 				c.Violate(rule, construct, pos, "keyed registry access on a shard picked by array index rather than by the shard function", nil)
 			}
